@@ -195,6 +195,7 @@ structure St where
   transitionsChecked : Nat := 0
   paidChecked : Nat := 0
   hist : List (String × Nat) := []
+  clauseHits : List (String × Nat) := []
   samples : Nat := 0
 
 def bump (h : List (String × Nat)) (k : String) : List (String × Nat) :=
@@ -207,9 +208,11 @@ def mismatch (s : St) (detail : String) : IO St := do
   return { s with mismatches := s.mismatches + 1 }
 
 def monitor (s : St) (clause detail : String) : IO St := do
-  if s.monitorFails < 40 then
+  -- at most 8 lines per clause, so that a frequent (known) clause cannot hide another one
+  let n := ((s.clauseHits.find? (·.1 == clause)).map (·.2)).getD 0
+  if n < 8 then
     IO.println s!"MONITOR case={s.caseId} clause={clause} line={s.lines} {detail}"
-  return { s with monitorFails := s.monitorFails + 1 }
+  return { s with monitorFails := s.monitorFails + 1, clauseHits := bump s.clauseHits clause }
 
 /-! ### monitor -/
 
@@ -554,5 +557,7 @@ def main (args : List String) : IO Unit := do
   IO.println s!"STAT settled_dumps_checked={s.paidChecked}"
   for (k, n) in s.hist do
     IO.println s!"STAT {k}={n}"
+  for (k, n) in s.clauseHits do
+    IO.println s!"STAT monitor_{k}={n}"
   IO.println s!"STAT mismatches={s.mismatches}"
   IO.println s!"STAT monitor_failures={s.monitorFails}"
